@@ -274,15 +274,40 @@ func (in *c08Intern) project(obj client.Object) c08Status {
 
 // ---------------------------------------------------------------- Coq printers
 
+// string literals are costly to parse (one constructor per character): every distinct string is defined once
+// in the preamble of the shard and referred to by name.
+var (
+	c08StrIDs  = map[string]int{}
+	c08StrDefs []string
+)
+
+func c08S(s string) string {
+	id, ok := c08StrIDs[s]
+	if !ok {
+		id = len(c08StrIDs)
+		c08StrIDs[s] = id
+		c08StrDefs = append(c08StrDefs, fmt.Sprintf("Definition s%d : string := %s.\n", id, vu.Str(s)))
+	}
+	return fmt.Sprintf("s%d", id)
+}
+
+func c08Preamble() string {
+	out := ""
+	for _, d := range c08StrDefs {
+		out += d
+	}
+	return out
+}
+
 func c08OptS(p *string) string {
 	if p == nil {
 		return "None"
 	}
-	return vu.Some(vu.Str(*p))
+	return vu.Some(c08S(*p))
 }
 
 func c08CondT(c c08Cond) string {
-	return vu.App("Cond", vu.Str(c.Type), vu.Str(c.Status), vu.Str(c.Reason), vu.Nat(c.Msg), vu.N(uint64(c.MLen)),
+	return vu.App("Cond", c08S(c.Type), c08S(c.Status), c08S(c.Reason), vu.Nat(c.Msg), vu.N(uint64(c.MLen)),
 		vu.Z(c.Gen), vu.Z(c.Time))
 }
 
@@ -297,7 +322,7 @@ func c08CondsT(cs []c08Cond) string {
 func c08PCondsT(cs []c08PCond) string {
 	it := make([]string, len(cs))
 	for i, c := range cs {
-		it[i] = vu.App("PC", vu.Str(c.Type), vu.Str(c.Status), vu.Str(c.Reason), vu.Nat(c.Msg), vu.N(uint64(c.MLen)))
+		it[i] = vu.App("PC", c08S(c.Type), c08S(c.Status), c08S(c.Reason), vu.Nat(c.Msg), vu.N(uint64(c.MLen)))
 	}
 	return vu.List(it)
 }
@@ -313,7 +338,7 @@ func c08KeyT(k []*string) string {
 func c08KindsT(ks []c08Kind) string {
 	it := make([]string, len(ks))
 	for i, k := range ks {
-		it[i] = vu.Pair(vu.Str(k.Kind), c08OptS(k.Group))
+		it[i] = vu.Pair(c08S(k.Kind), c08OptS(k.Group))
 	}
 	return vu.List(it)
 }
@@ -321,7 +346,7 @@ func c08KindsT(ks []c08Kind) string {
 func c08AddrsT(as []c08Addr) string {
 	it := make([]string, len(as))
 	for i, a := range as {
-		it[i] = vu.Pair(c08OptS(a.Type), vu.Str(a.Value))
+		it[i] = vu.Pair(c08OptS(a.Type), c08S(a.Value))
 	}
 	return vu.List(it)
 }
@@ -330,13 +355,13 @@ func c08StatusT(s c08Status) string {
 	if !s.Whole {
 		it := make([]string, len(s.Entries))
 		for i, e := range s.Entries {
-			it[i] = vu.App("Entry", vu.Str(e.Ctlr), c08KeyT(e.Key), vu.Nat(e.Rest), c08CondsT(e.Conds))
+			it[i] = vu.App("Entry", c08S(e.Ctlr), c08KeyT(e.Key), vu.Nat(e.Rest), c08CondsT(e.Conds))
 		}
 		return vu.App("SEntries", vu.List(it))
 	}
 	it := make([]string, len(s.Lsts))
 	for i, l := range s.Lsts {
-		it[i] = vu.App("Lst", vu.Str(l.Name), vu.Z(l.Attached), c08KindsT(l.Kinds), c08CondsT(l.Conds))
+		it[i] = vu.App("Lst", c08S(l.Name), vu.Z(l.Attached), c08KindsT(l.Kinds), c08CondsT(l.Conds))
 	}
 	return vu.App("SWhole", c08AddrsT(s.Addrs), c08CondsT(s.Conds), vu.List(it))
 }
@@ -351,7 +376,7 @@ func c08ComputedT(c c08Computed) string {
 	}
 	it := make([]string, len(c.Lsts))
 	for i, l := range c.Lsts {
-		it[i] = vu.App("PL", vu.Str(l.Name), vu.Z(l.Attached), c08KindsT(l.Kinds), c08PCondsT(l.Conds))
+		it[i] = vu.App("PL", c08S(l.Name), vu.Z(l.Attached), c08KindsT(l.Kinds), c08PCondsT(l.Conds))
 	}
 	return vu.App("CWhole", c08AddrsT(c.Addrs), c08PCondsT(c.Conds), vu.List(it))
 }
